@@ -141,7 +141,7 @@ def _canon_files_round_robin(req, k):
 
 def body_request(wire, sched, *, B, M=None, cl=None, chunked=False, ctype=None, tempmode='real',
                  touch=('body',), endless=None, max_calls=None, propagate=True, method=None, retry=False, cfgvia=None, stages=None,
-                 keep_alive=False, errors_map=None, via_copy=None):
+                 keep_alive=False, errors_map=None, via_copy=None, foreign_app=False):
     """Serve one request whose body stream is SimStream(wire, sched)."""
     import ombott
     o = Obs()
@@ -163,7 +163,7 @@ def body_request(wire, sched, *, B, M=None, cl=None, chunked=False, ctype=None, 
         cfg['errors_map'] = {rq_errors.RequestError: ombott.HTTPError(400, 'bad request body')}
     if cfgvia is None:
         # both ways of configuring an application must behave alike; which one a run uses is a pure function of its wire
-        cfgvia = 'setup' if zlib.crc32(bytes(wire[:256])) % 4 == 0 else 'ctor'
+        cfgvia = ['setup', 'ctor', 'ctor', 'class', 'setup', 'ctor', 'ctor', 'class_setup'][zlib.crc32(bytes(wire[:256])) % 8]
 
     if method is None:
         # a body is a body whatever the request method (incl. an extension method); which one a run uses is a pure
@@ -177,9 +177,27 @@ def body_request(wire, sched, *, B, M=None, cl=None, chunked=False, ctype=None, 
     the_copy = []
 
     def make_app():
+        if foreign_app:
+            # another application of the process, configured to answer request errors in its own way: its business only
+            from ombott.request_pkg import errors as rq_errors
+            ombott.Ombott({'errors_map': {rq_errors.RequestError: ombott.HTTPError(502, 'upstream sent a bad body'),
+                                          rq_errors.BodyParsingError: ombott.HTTPError(502, 'upstream sent a bad body'),
+                                          rq_errors.BodySizeError: ombott.HTTPError(507, 'upstream sent too much')},
+                           'max_body_size': 1, 'max_memfile_size': 1})
         if cfgvia == 'setup':
             a = ombott.Ombott()
             a.setup(dict(cfg))
+            return a
+        if cfgvia in ('class', 'class_setup'):
+            # configuration given as a class derived from the defaults in two steps (limits, then site settings)
+            from ombott.ombott import DefaultConfig
+            meta = type(DefaultConfig)
+            limits = meta('Limits', (DefaultConfig,), {k: v for k, v in cfg.items() if k != 'errors_map'})
+            site = meta('Site', (limits,), {k: v for k, v in cfg.items() if k == 'errors_map'} or {'catchall': True})
+            if cfgvia == 'class':
+                return ombott.Ombott(site)
+            a = ombott.Ombott()
+            a.setup(site)
             return a
         return ombott.Ombott(cfg)
     path = '/x'
